@@ -1,237 +1,522 @@
 """C20 - LDAP URL parameters are extracted as RFC 4516 defines them."""
-from facts import walk, callee_of, call_args, loc
-import hirq, anchors, absx
+from facts import loc
+import hirq, absx, strdom
+from strdom import S, atom, parts, mk
 
-EXPLANATION = ("get_url_params is abstractly evaluated on all paths (field prefix and extension loop separately, the loop on a generic "
-               "extension): the query is split with splitn(4, '?'); field 0 -> attribute list (split on ','), default [\"*\"]; field 1 -> "
-               "scope words base/one/sub -> Base/OneLevel/Subtree, default Subtree, anything else InvalidScopeString; field 2 -> filter, "
-               "default (objectClass=*); field 3 -> extensions; the base is the path without its leading '/'; base, filter and every "
-               "extension value go through percent_decode_str + decode_utf8 and a failure there is DecodingUTF8; extensions are split on "
-               "',' then splitn(2, '='), a leading '!' is stripped and sets criticality; the recognition table (1.3.6.1.4.1.10094.1.5.1 -> "
-               "Credentials, ...5.2 -> SaslMech, 1.3.6.1.4.1.1466.20037 -> StartTLS, case-insensitive bindname / x-bindpw) carries the "
-               "decoded value; unknown critical -> UnrecognizedCriticalExtension, unknown non-critical dropped; the set's equality is by "
-               "variant only (evaluated for all 36 variant pairs). Not decided: the url crate's own parsing of exotic strings.")
-TRUSTED = ['url crate (path(), query())', 'percent_encoding crate', 'str::split / splitn']
+EXPLANATION = ("get_url_params is decided as a pure function of a structured symbolic input: the abstract interpreter evaluates its whole body "
+               "once per class of a finite partition of (url.path(), url.query()) and the returned LdapUrlParams (fields base, attrs, scope, "
+               "filter, extensions - read by the public field names) or error is compared with a reference function of the same structured "
+               "input written in this module from RFC 4516 and the property text. A string is a sequence of literal chunks and opaque atoms "
+               "(rules/strdom.py); an atom is a non-empty ASCII text that contains none of the separators that matter at its position "
+               "('?' in every query atom, ',' in attribute names and extensions, '=' in extension ids and value pieces) and does not begin "
+               "with '!' (extension id) or '/' (DN). The partition: path = '' | '/' | '/'+dn | dn | '//'+dn | '//'; query = absent | 1..4 fields "
+               "joined by '?'; attributes '' | a | a,a; scope '' | base | one | sub | other word; filter '' | f; extension field '' | one "
+               "extension built from optional '!' + id (three OIDs, bindname / x-bindpw in lower and mixed case, an unknown id, the empty id) + "
+               "optional '=' + value ('' | v | v=v) | two or three extensions (nothing but the set is carried from one to the next: "
+               "criticality is per extension) | a fourth field that itself contains '?'. Reference: base = path minus ONE leading '/', "
+               "percent-decoded; fields = query split at its first three '?'; attributes default [\"*\"], else split on ','; scope words "
+               "base/one/sub -> Base/OneLevel/Subtree, default Subtree, any other word InvalidScopeString(word); filter default "
+               "(objectClass=*), percent-decoded; each ','-separated extension: leading '!' = critical, id up to the first '=', value after "
+               "it percent-decoded; recognition table 1.3.6.1.4.1.10094.1.5.1 -> Credentials, ...5.2 -> SaslMech, 1.3.6.1.4.1.1466.20037 -> "
+               "StartTLS, case-insensitive bindname / x-bindpw; unknown critical -> UnrecognizedCriticalExtension, unknown non-critical "
+               "dropped. percent_decode_str(X).decode_utf8() is an opaque function of X with two outcomes, Ok(decoded X) / Err, the latter "
+               "must surface as DecodingUTF8 (a literal without '%' cannot fail and decodes to itself). Which error wins when several apply "
+               "is not constrained. std str / Option / iterator / HashSet functions are modelled once each over the symbolic strings; a "
+               "whole-string comparison of an atom with a literal is answered 'different' and recorded, and every recorded literal outside "
+               "the partition's constants gets a literal class of its own (the function depends on its input only through these "
+               "comparisons). Anything the models cannot evaluate stays an opaque term and fails the class. The set's equality is the "
+               "enum's own PartialEq (evaluated; decided to be 'same variant' for all 36 variant pairs, and its Hash feeds the hasher nothing but the variant); a limit (splitn(n), take(n)) that no class reaches is reported; a workspace comparison helper "
+               "(ascii_lc_equal, found by role) is decided by literal evaluation against 'equal up to ASCII case' on the partition of words "
+               "relative to each name it is called with. Not decided: the url crate's own parsing of exotic strings.")
+TRUSTED = ['url crate (path(), query()): ASCII-only, percent-encoded text', 'percent_encoding crate', 'std str / iterator / HashSet functions as modelled in rules/strdom.py']
 UNDECIDED = ['behaviour of the url crate on exotic strings']
-ASSUMPTIONS = ['a generic extension stands for every element of the extension list']
+ASSUMPTIONS = ['the extension classes are crossed with two settings of the other fields (all defaulted / all given) and one path; the other fields, the number of fields and the path classes are crossed fully with three extension fields',
+               'extension lists of one, two and three elements stand for all lists: one iteration reads nothing of the earlier ones but the set (checked: lists whose second element would show a carried flag)',
+               'a comparison helper is evaluated on every word that deviates from the name in one position (all 128 ASCII bytes), on the upper-cased name and on shorter / longer words; words deviating in several positions at once are represented by these']
 
 P = 'ldap3::util::get_url_params'
-URL = ('param', 'url')
 
-def strip_site(t):
-    if isinstance(t, tuple):
-        if t and t[0] == 'call' and len(t) == 4:
-            return ('call', t[1], tuple(strip_site(x) for x in t[2]), None)
-        return tuple(strip_site(x) for x in t)
-    return t
+# ---------------------------------------------------------------------------------------------------- reference (RFC 4516 + property text)
+OIDS = {'1.3.6.1.4.1.10094.1.5.1': 'Credentials', '1.3.6.1.4.1.10094.1.5.2': 'SaslMech', '1.3.6.1.4.1.1466.20037': 'StartTLS'}
+NAMES = {'bindname': 'Bindname', 'x-bindpw': 'XBindpw'}
+VALUELESS = ('StartTLS',)
+SCOPES = {'base': 'Scope::Base', 'one': 'Scope::OneLevel', 'sub': 'Scope::Subtree'}
+DEFAULT_FILTER = '(objectClass=*)'
 
-def calls_in(t):
-    return [x[1].rsplit('::', 1)[-1] for x in absx.leaves(t, lambda x: x[0] == 'call')]
+def ref_ext_kind(idt):
+    """which extension an id names; an atom is, by what it stands for, none of the known ids"""
+    if idt[0] != 'lit':
+        return None
+    if idt[1] in OIDS:
+        return OIDS[idt[1]]
+    return NAMES.get(idt[1].lower())
 
-def decoded(pred):
-    """term is the Ok payload of map_err(decode_utf8(percent_decode_str(X))) with pred(X)"""
-    def f(t):
-        if not (t[0] == 'variant' and t[2] == 'Ok'):
-            return False
-        c = t[1]
-        if not (c[0] == 'call' and c[1].endswith('::map_err')):
-            return False
-        d = c[2][0]
-        if not (d[0] == 'call' and d[1].endswith('::decode_utf8')):
-            return False
-        p = d[2][0]
-        return p[0] == 'call' and p[1].endswith('percent_decode_str') and pred(p[2][0])
-    return f
+def decoded(x):
+    """(the decoded text as a term, the source whose decoding must have succeeded or None when it cannot fail)"""
+    if x[0] == 'lit' and '%' not in x[1]:
+        return x, None
+    return ('variant', ('utf8', x), 'Ok', 0), x
 
+def ref_base_src(path):
+    ps = parts(path)
+    if ps and isinstance(ps[0], str) and ps[0].startswith('/'):
+        return mk([ps[0][1:]] + ps[1:])           # exactly one leading '/' separates the DN from the host part
+    return path
+
+def reference(c):
+    r = {}
+    r['base'] = decoded(ref_base_src(c['path'][1]))
+    r['attrs'] = list(c['attrs'][1]) if c['attrs'] is not None and c['attrs'][1] else [('lit', '*')]
+    sc = c['scope'][1] if c['scope'] is not None else ('lit', '')
+    if sc == ('lit', ''):
+        r['scope'] = ('ok', 'Scope::Subtree')
+    elif sc[0] == 'lit' and sc[1] in SCOPES:
+        r['scope'] = ('ok', SCOPES[sc[1]])
+    else:
+        r['scope'] = ('invalid', sc)
+    fl = c['filter'][1] if c['filter'] is not None else ('lit', '')
+    r['filter'] = decoded(fl if fl != ('lit', '') else ('lit', DEFAULT_FILTER))
+    exts = []
+    for crit, idt, val in (c['ext'][1] if c['ext'] is not None else []):
+        kind = ref_ext_kind(idt)
+        exts.append({'kind': kind, 'crit': crit, 'id': idt, 'val': decoded(val if val is not None else ('lit', ''))})
+    r['exts'] = exts
+    return r
+
+# ---------------------------------------------------------------------------------------------------- the partition
+A1, A2 = atom('attr1', '?,'), atom('attr2', '?,')
+W = atom('scopeword', '?')
+F = atom('filter', '?')
+DN = atom('dn', '', '/')
+U, UB = atom('extid', '?,=', '!'), atom('extid2', '?,=', '!')
+V, V2 = atom('val', '?,='), atom('val2', '?,=')
+COVERED = {'scopeword': set(SCOPES), 'extid': set(OIDS) | set(NAMES), 'extid2': set(OIDS) | set(NAMES)}
+ATOMS = {a[1]: a for a in (A1, A2, W, F, DN, U, UB, V, V2)}
+
+PATHS = [("''", S('')), ("'/'", S('/')), ('/dn', S('/', DN)), ('dn', S(DN)), ('//dn', S('//', DN)), ("'//'", S('//'))]
+ATTRS = [("''", []), ('a', [S(A1)]), ('a,a', [S(A1), S(A2)])]
+SCOPEF = [("''", S('')), ('base', S('base')), ('one', S('one')), ('sub', S('sub')), ('other', S(W))]
+FILTERS = [("''", S('')), ('f', S(F))]
+
+def ext_label(items):
+    def one(it):
+        crit, idt, val = it
+        i = idt[1] if idt[0] == 'lit' else '+'.join(p if isinstance(p, str) else '<%s>' % p[1] for p in parts(idt))
+        v = '' if val is None else '=' + (val[1] if val[0] == 'lit' else '+'.join(p if isinstance(p, str) else '<%s>' % p[1] for p in parts(val)))
+        return ('!' if crit else '') + i + v
+    return ','.join(one(it) for it in items) or "''"
+
+def ext_classes():
+    out = []
+    ids = [S(x) for x in OIDS] + [S('bindname'), S('BindName'), S('x-bindpw'), S('X-BINDPW'), S(U), S('')]
+    vals = [None, S(''), S(V), S(V, '=', V2)]
+    for crit in (False, True):
+        for i in ids:
+            for v in vals:
+                out.append([(crit, i, v)])
+    firsts = [(True, S('bindname'), S(V)), (False, S('x-bindpw'), S(V)), (False, S(U), None), (True, S('1.3.6.1.4.1.1466.20037'), None)]
+    seconds = [(False, S(UB), None), (True, S(UB), None), (False, S('1.3.6.1.4.1.10094.1.5.2'), S(V2)), (False, S('bindname'), S(V2)), (False, S(''), None), (False, S(UB), S(V2))]
+    for a in firsts:
+        for b in seconds:
+            out.append([a, b])
+    out.append([(True, S(U), None), (False, S('bindname'), S(V))])
+    out.append([(True, S('bindname'), S(V)), (False, S(U), None), (False, S('x-bindpw'), S(V2))])
+    out.append([(False, S(U), S(V)), (True, S('1.3.6.1.4.1.10094.1.5.1'), S(V2)), (False, S(UB), None)])
+    # an id that still begins with '!' once the marker is taken off is just an unknown id (one '!' is the marker, not all of them)
+    out.append([(True, S('!bindname'), S(V))])
+    out.append([(True, S('!', U), None)])
+    # a fourth field that itself contains '?'
+    out.append([(False, S('bindname'), S(V, '?', V2))])
+    out.append([(False, S(U, '?', UB), None)])
+    out.append([(True, S('x-bindpw'), S(V)), (False, S(U, '?', UB), S(V2))])
+    return [(ext_label(x), x) for x in out]
+
+def classes():
+    E = ext_classes()
+    e_small = [("''", [])] + [e for e in E if e[0] in ('bindname=<val>', '!<extid>')]
+    assert len(e_small) == 3
+    out = []
+    def add(path, attrs, scope, flt, ext):
+        out.append({'path': path, 'attrs': attrs, 'scope': scope, 'filter': flt, 'ext': ext})
+    for p in PATHS:
+        add(p, None, None, None, None)
+        for a in ATTRS:
+            add(p, a, None, None, None)
+            for s in SCOPEF:
+                add(p, a, s, None, None)
+                for f in FILTERS:
+                    add(p, a, s, f, None)
+                    for e in e_small:
+                        add(p, a, s, f, e)
+    for e in E:
+        add(PATHS[2], ATTRS[0], SCOPEF[0], FILTERS[0], e)
+        add(PATHS[2], ATTRS[2], SCOPEF[1], FILTERS[1], e)
+    return out
+
+def query_of(c):
+    if c['attrs'] is None:
+        return absx_none()
+    fields = [_join(c['attrs'][1], ',')]
+    if c['scope'] is not None:
+        fields.append(c['scope'][1])
+        if c['filter'] is not None:
+            fields.append(c['filter'][1])
+            if c['ext'] is not None:
+                items = []
+                for crit, idt, val in c['ext'][1]:
+                    items.append(S(*((['!'] if crit else []) + [idt] + ([] if val is None else ['=', val]))))
+                fields.append(_join(items, ','))
+    return ('ctor', 'Some', (_join(fields, '?'),))
+
+def absx_none():
+    return ('ctor', 'None', ())
+
+def _join(xs, sep):
+    ps = []
+    for i, x in enumerate(xs):
+        if i:
+            ps.append(sep)
+        ps.append(x)
+    return S(*ps)
+
+def label(c):
+    return 'path=%s query=%s' % (c['path'][0], 'absent' if c['attrs'] is None else '?'.join(x[0] for x in (c['attrs'], c['scope'], c['filter'], c['ext']) if x is not None))
+
+def substitute(c, name, text):
+    """the class with the atom `name` replaced by a literal"""
+    def sub(t):
+        if isinstance(t, tuple) and t and t[0] == 'sstr':
+            return mk([text if (isinstance(p, tuple) and p[0] == 'atom' and p[1] == name) else p for p in t[1]])
+        return t
+    def lab(l, changed):
+        return l + '[%s:=%s]' % (name, text) if changed else l
+    def fld(x, f):
+        if x is None:
+            return None
+        y = f(x[1])
+        return (lab(x[0], y != x[1]), y)
+    return {'path': fld(c['path'], sub), 'attrs': fld(c['attrs'], lambda xs: [sub(x) for x in xs]), 'scope': fld(c['scope'], sub), 'filter': fld(c['filter'], sub),
+            'ext': fld(c['ext'], lambda its: [(cr, sub(i), None if v is None else sub(v)) for cr, i, v in its])}
+
+def mentions(c, name):
+    return any(isinstance(p, tuple) and p[0] == 'atom' and p[1] == name for t in absx.leaves(('x', c['path'][1], query_of(c)), lambda z: z[0] == 'sstr') for p in t[1])
+
+# ---------------------------------------------------------------------------------------------------- judging one class
+F6_ALL = ('F6.no-extensions', 'F6.recognition-table', 'F6.extension-value-decoded', 'F6.unknown-critical-is-error', 'F6.unknown-noncritical-dropped',
+          'F6.split-on-comma', 'F6.split-id-value', 'F6.criticality-marker', 'F6.case-insensitive-names')
+
+def short(t):
+    return absx.fmt(t)[:110]
+
+def strip_tryerr(v):
+    while v[0] == 'tryerr':
+        v = v[1]
+    return v
+
+class Judge:
+    def __init__(self):
+        self.groups = {}       # (rule, instance) -> [ok count, bad count, first bad detail]
+        self.npaths = 0
+        self.q4_pending = []
+        self.ext_failed = False
+
+    def finish(self):
+        for r, einst, f2inst, msg in self.q4_pending:
+            if self.ext_failed:
+                self.note(r, einst, False, msg)
+            else:
+                self.note('F2.query-split', f2inst, False, msg + ' - the fourth field is everything after the third "?", further "?" included')
+        self.q4_pending = []
+
+    def note(self, rule, inst, ok, detail=''):
+        g = self.groups.setdefault((rule, inst), [0, 0, ''])
+        if ok:
+            g[0] += 1
+        else:
+            g[1] += 1
+            g[2] = g[2] or detail
+
+    def ext_rules(self, c):
+        """the extension clauses a class exercises (what a deviation of the extension set is reported under)"""
+        items = c['ext'][1] if c['ext'] is not None else []
+        rules = []
+        if not items:
+            rules.append('F6.no-extensions')
+        if len(items) > 1:
+            rules.append('F6.split-on-comma')
+        for crit, idt, val in items:
+            kind = ref_ext_kind(idt)
+            if val is not None and '=' in [p for p in parts(val) if isinstance(p, str)]:
+                rules.append('F6.split-id-value')
+            if kind is not None and idt[0] == 'lit' and idt[1] not in OIDS and idt[1] != idt[1].lower():
+                rules.append('F6.case-insensitive-names')
+            if crit and kind is not None:
+                rules.append('F6.criticality-marker')
+            if kind is None:
+                rules.append('F6.unknown-critical-is-error' if crit else 'F6.unknown-noncritical-dropped')
+            if kind is not None:
+                rules.append('F6.recognition-table')
+                if kind not in VALUELESS:
+                    rules.append('F6.extension-value-decoded')
+        seen = []
+        for r in rules:
+            if r not in seen:
+                seen.append(r)
+        return seen
+
+    def judge(self, c, outs, heap_of=lambda o: o.st.heap):
+        exp = reference(c)
+        lab = label(c)
+        k = sum(1 for x in (c['attrs'], c['scope'], c['filter'], c['ext']) if x is not None)
+        inst = {'F1.base': 'path ' + c['path'][0], 'F2.query-split': '%d fields%s' % (k, ' (4th contains ?)' if c['ext'] is not None and '?' in c['ext'][0] else ''),
+                'F3.attributes': 'field %s' % (c['attrs'][0] if c['attrs'] is not None else 'absent'),
+                'F4.scope': 'field %s' % (c['scope'][0] if c['scope'] is not None else 'absent'),
+                'F4.invalid-scope-is-error': 'field %s' % (c['scope'][0] if c['scope'] is not None else 'absent'),
+                'F5.filter': 'field %s' % (c['filter'][0] if c['filter'] is not None else 'absent')}
+        einst = 'extensions %s' % (c['ext'][0] if c['ext'] is not None else 'absent')
+        erules = self.ext_rules(c)
+        q4 = c['ext'] is not None and '?' in c['ext'][0]
+        unknown_crit = [x for x in exp['exts'] if x['kind'] is None and x['crit']]
+        mandatory = {'base': exp['base'][1], 'filter': exp['filter'][1]}
+        ext_srcs = [x['val'][1] for x in exp['exts'] if x['kind'] is not None and x['kind'] not in VALUELESS and x['val'][1] is not None]
+        optional = [x['val'][1] for x in exp['exts'] if x['val'][1] is not None]
+        if not outs:
+            self.note('F.evaluated', lab, False, 'no path of get_url_params was evaluated for this class')
+        for o in outs:
+            self.npaths += 1
+            dec, und = {}, []
+            for a, t in o.st.pc:
+                if a[0] == 'is' and a[2] == 'Ok' and a[1][0] == 'utf8':
+                    dec[a[1][1]] = t
+                else:
+                    und.append(a)
+            if o.kind == 'div':
+                pan = [e for e in o.st.ev if e[0] in ('panic', 'overflow')]
+                self.note('F.no-panic', lab, False, 'get_url_params panics on %s: %s' % (lab, short(pan[-1][1:3]) if pan else '?'))
+                continue
+            if o.kind not in ('val', 'ret') or und:
+                rule = 'F6.extension-list-evaluated' if (c['ext'] is not None and c['ext'][1]) else 'F.evaluated'
+                self.note(rule, einst if rule.startswith('F6') else lab, False,
+                          'on %s the function could not be evaluated to a result (%s): a test depends on something the models do not decide for this class (e.g. the extension '
+                          'list is not walked as the \',\'-separated items of field 3, two unknown texts are compared, or a construct has no model) - the class fails closed' %
+                          (lab, 'undecided: ' + short(und[0]) if und else 'path ends as ' + o.kind))
+                if rule.startswith('F6') and not q4:
+                    self.ext_failed = True
+                continue
+            self.note('F.no-panic', 'all classes', True)
+            v = strip_tryerr(o.val)
+            if v[0] == 'ctor' and v[1] == 'Err' and v[2] and v[2][0][0] == 'ctor':
+                self.judge_err(c, exp, v[2][0], dec, mandatory, ext_srcs, optional, unknown_crit, inst, einst, lab)
+                continue
+            if not (v[0] == 'ctor' and v[1] == 'Ok' and v[2] and v[2][0][0] == 'struct'):
+                self.note('F.evaluated', lab, False, 'on %s the result is neither Ok(LdapUrlParams{..}) nor Err(LdapError): %s' % (lab, short(v)))
+                continue
+            fl = dict(v[2][0][2])
+            # ---- errors that must not be swallowed
+            if exp['scope'][0] == 'invalid':
+                self.note('F4.invalid-scope-is-error', inst['F4.invalid-scope-is-error'], False, 'on %s the unknown scope word is accepted (scope %s); it must be InvalidScopeString(word)' % (lab, short(fl.get('scope', ('unk',)))))
+            if unknown_crit:
+                self.note('F6.unknown-critical-is-error', einst, False, 'on %s an unrecognised extension marked "!" does not yield UnrecognizedCriticalExtension' % lab)
+            for what in ('base', 'filter'):
+                src = mandatory[what]
+                if src is not None and dec.get(src) is False:
+                    self.note('F1.decode-failure-is-DecodingUTF8', what, False, 'on %s the %s is not valid UTF-8 after percent-decoding, yet Ok is returned' % (lab, what))
+                elif src is not None:
+                    self.note('F1.decode-failure-is-DecodingUTF8', what, True)
+            for src in ext_srcs:
+                if dec.get(src) is False:
+                    self.note('F6.extension-value-decoded', einst, False, 'on %s an extension value is not valid UTF-8 after percent-decoding, yet Ok is returned (the failure must be DecodingUTF8)' % lab)
+            # ---- fields
+            bad = []
+            okb = fl.get('base') == exp['base'][0]
+            self.note('F1.base', inst['F1.base'], okb, 'on %s the base is %s, expected the percent-decoded path without one leading "/": %s' % (lab, short(fl.get('base', ('unk',))), short(exp['base'][0])))
+            oka = fl.get('attrs') == ('vec', tuple(exp['attrs']))
+            self.note('F3.attributes', inst['F3.attributes'], oka, 'on %s the attributes are %s, expected %s' % (lab, short(fl.get('attrs', ('unk',))), short(('vec', tuple(exp['attrs'])))))
+            if exp['scope'][0] == 'ok':
+                oks = fl.get('scope') == ('ctor', exp['scope'][1], ())
+                self.note('F4.scope', inst['F4.scope'], oks, 'on %s the scope is %s, RFC 4516: %s' % (lab, short(fl.get('scope', ('unk',))), exp['scope'][1]))
+            else:
+                oks = True
+            okf = fl.get('filter') == exp['filter'][0]
+            self.note('F5.filter', inst['F5.filter'], okf, 'on %s the filter is %s, expected %s' % (lab, short(fl.get('filter', ('unk',))), short(exp['filter'][0])))
+            oke, why = self.ext_ok(exp, fl.get('extensions', ('unk',)), heap_of(o))
+            wrong = [n for n, x in (('base', okb), ('attributes', oka), ('scope', oks), ('filter', okf), ('extensions', oke)) if not x]
+            # the split itself: a query with k fields fills exactly those k components (several at once off: the split is off)
+            self.note('F2.query-split', inst['F2.query-split'], len(wrong) < 2,
+                      'on %s the components %s deviate: the query is not split into at most four fields at its first three "?"' % (lab, wrong))
+            if oke:
+                for r in erules:
+                    self.note(r, einst, True)
+            else:
+                r = self.ext_rule(c, exp, why, erules)
+                msg = 'on %s the extension set is %s' % (lab, why)
+                if q4:
+                    # a deviation on a fourth field that contains '?': the split's fault unless the same clause also fails without the '?'
+                    self.q4_pending.append((r, einst, inst['F2.query-split'], msg))
+                else:
+                    self.ext_failed = True
+                    self.note(r, einst, False, msg)
+
+    def ext_ok(self, exp, t, heap):
+        if t[0] != 'hset' or t not in heap:
+            return False, 'not a set built from the extension list: %s' % short(t)
+        got = heap[t]
+        want = [x for x in exp['exts'] if x['kind'] is not None]
+        if any(not (g[0] == 'ctor' and g[1].startswith('LdapUrlExt::')) for g in got):
+            return False, 'unreadable: %s' % short(got)
+        gk = sorted(g[1].split('::')[-1] for g in got)
+        wk = sorted(set(x['kind'] for x in want))
+        self._kinds = (gk, wk)
+        if gk != wk:
+            return False, 'kinds %s, expected %s' % (gk, wk)
+        for g in got:
+            kind = g[1].split('::')[-1]
+            cands = [x['val'][0] for x in want if x['kind'] == kind]      # a repeated extension: either occurrence may stay
+            if kind in VALUELESS:
+                if g[2]:
+                    return False, 'value for %s' % kind
+            elif not (len(g[2]) == 1 and g[2][0] in cands):
+                return False, 'value of %s is %s, expected the percent-decoded text after "=": %s' % (kind, short(g[2][0]) if g[2] else '-', short(cands[0]))
+        return True, ''
+
+    def ext_rule(self, c, exp, why, erules):
+        if why.startswith('value of') or why.startswith('value for'):
+            return 'F6.split-id-value' if 'F6.split-id-value' in erules else 'F6.extension-value-decoded'
+        if why.startswith('kinds'):
+            got, want = self._kinds
+            extra, missing = [k for k in got if k not in want], [k for k in want if k not in got]
+            if 'Unknown' in extra:
+                return 'F6.unknown-noncritical-dropped'
+            if extra:
+                return 'F6.no-extensions' if 'F6.no-extensions' in erules else 'F6.recognition-table'
+            items = [x for x in exp['exts'] if x['kind'] in missing]
+            if items and all(x['id'][0] == 'lit' and x['id'][1] not in OIDS and x['id'][1] != x['id'][1].lower() for x in items):
+                return 'F6.case-insensitive-names'
+            if items and all(x['crit'] for x in items):
+                return 'F6.criticality-marker'
+            return 'F6.recognition-table'
+        return 'F6.split-on-comma'
+
+    def judge_err(self, c, exp, err, dec, mandatory, ext_srcs, optional, unknown_crit, inst, einst, lab):
+        kind = err[1]
+        if kind == 'LdapError::DecodingUTF8':
+            failing = [x for x, t in dec.items() if not t]
+            allowed = [x for x in (mandatory['base'], mandatory['filter']) if x is not None] + optional
+            if not failing:
+                self.note('F1.decode-failure-is-DecodingUTF8', 'no failure', False, 'on %s DecodingUTF8 is returned although no percent-decoding failed' % lab)
+            for x in failing:
+                if x == mandatory['base'] or x == mandatory['filter']:
+                    self.note('F1.decode-failure-is-DecodingUTF8', 'base' if x == mandatory['base'] else 'filter', True)
+                elif x in optional:
+                    self.note('F6.extension-value-decoded', einst, True)
+                else:
+                    names = {p[1] for t in absx.leaves(('x', x), lambda z: z[0] == 'sstr') for p in t[1] if isinstance(p, tuple)}
+                    rule = 'F1.base' if 'dn' in names else 'F5.filter' if 'filter' in names else 'F6.extension-value-decoded' if c['ext'] is not None and c['ext'][1] else 'F1.decode-failure-is-DecodingUTF8'
+                    self.note(rule, inst.get(rule, einst if rule.startswith('F6') else 'other text'), False,
+                              'on %s percent-decoding is applied to %s, which is not the base, the filter or an extension value' % (lab, short(x)))
+        elif kind == 'LdapError::InvalidScopeString':
+            ok = exp['scope'][0] == 'invalid' and len(err[2]) == 1 and err[2][0] == exp['scope'][1]
+            rule = 'F4.invalid-scope-is-error' if exp['scope'][0] == 'invalid' else 'F4.scope'
+            self.note(rule, inst[rule], ok, 'on %s InvalidScopeString(%s) is returned; an unknown scope word - and only that - must be InvalidScopeString(<word>)' % (lab, short(err[2][0]) if err[2] else ''))
+        elif kind == 'LdapError::UnrecognizedCriticalExtension':
+            if unknown_crit or any(x['kind'] is None for x in exp['exts']) or not exp['exts']:
+                self.note('F6.unknown-critical-is-error', einst, bool(unknown_crit),
+                          'on %s UnrecognizedCriticalExtension is returned; it must be returned exactly for an unrecognised extension marked with "!"' % lab)
+            else:
+                # every extension of the class is a recognised one: the "!" of a recognised extension is not part of its id
+                marked = [x for x in exp['exts'] if x['crit']]
+                mixed = marked and all(x['id'][0] == 'lit' and x['id'][1] not in OIDS and x['id'][1] != x['id'][1].lower() for x in marked)
+                for r in (('F6.case-insensitive-names',) if mixed else ('F6.criticality-marker', 'F6.recognition-table')):
+                    self.note(r, einst, False, 'on %s UnrecognizedCriticalExtension is returned although every extension is a recognised one: the recognition table holds for an '
+                              'extension marked "!" as for an unmarked one (the marker is stripped before the id is looked up)' % lab)
+        else:
+            self.note('F.error-kind', lab, False, 'on %s the error %s is returned; C20 knows DecodingUTF8, InvalidScopeString, UnrecognizedCriticalExtension' % (lab, short(err)))
+
+
+# ---------------------------------------------------------------------------------------------------- the check
 def run(ctx):
     f = ctx.facts
     B = hirq.Body(f, f.body(P))
     ctx.analysed['bodies'].add(P)
     root = B.root
-    lets = [s for s in root['stmts'] if s['k'] == 'Let']
-    names = {}
-    ext_idx = None
-    for i, s in enumerate(root['stmts']):
-        if s['k'] == 'Let':
-            for b, name, proj, pn in hirq.pat_bindings(s['pat']):
-                names[name] = b
-                if name == 'extensions':
-                    ext_idx = i
-    if ext_idx is None:
-        ctx.fail('anchor-missing', 'extensions binding', '', 'unexpected shape of get_url_params'); return
-    prefix = dict(root)
-    prefix['stmts'] = root['stmts'][:ext_idx]
-    prefix['expr'] = None
-    I = absx.Interp(f, B, unroll=1, result_combinators=False)
-    pouts = I.ev(prefix, absx.St(I.param_env()))
-    q = ('call', 'core::str::<impl str>::splitn', (('call', 'core::option::Option::<T>::unwrap_or', (('call', 'url::Url::query', (URL,), None), ('lit', '')), None), ('lit', 4), ('lit', '?')), None)
-    def fld(n):
-        return ('nth', q, 'next', n)
-    n_ok = 0
-    seen = {'attrs': set(), 'scope': set(), 'filter': set(), 'base': set()}
-    for o in pouts:
-        pcs = [(strip_site(a), t) for a, t in o.st.pc]
-        def field_state(n):
-            """'absent' (None), 'empty' (Some("")), 'given'"""
-            some = next((t for a, t in pcs if a == ('is', fld(n), 'Some')), None)
-            none = next((t for a, t in pcs if a == ('is', fld(n), 'None')), None)
-            if none is True or some is False:
-                return 'absent'
-            emp = next((t for a, t in pcs if a == ('bin', 'Eq', ('variant', fld(n), 'Some', 0), ('lit', ''))), None)
-            if emp is True:
-                return 'empty'
-            return 'given'
-        if o.kind == 'ret':
-            v = strip_site(o.val)
-            if v[0] == 'ctor' and v[1] == 'Err' and v[2][0][0] == 'ctor' and v[2][0][1] == 'LdapError::InvalidScopeString':
-                seen['scope'].add('invalid')
-                words = [a[3][1] for a, t in pcs if not t and a[0] == 'bin' and a[1] == 'Eq' and a[2] == ('variant', fld(1), 'Some', 0)]
-                ok = set(words) >= {'base', 'one', 'sub'} and absx.leaves(v, lambda x: x == ('variant', fld(1), 'Some', 0)) != []
-                ctx.add('F4.invalid-scope-is-error', 'other word', loc(root), ok, 'an unknown scope word must be InvalidScopeString(<word>) (rejected words seen: %s)' % sorted(words))
-            elif v[0] == 'tryerr':
-                me = v[1]
-                seen['filter' if 'objectClass' in str(me) or str(fld(2)) in str(me) else 'base'].add('decode-error')
-            continue
-        if o.kind != 'val':
-            continue
-        n_ok += 1
-        env = {n: strip_site(o.st.env.get(b, ('unk',))) for n, b in names.items()}
-        # query splitting
-        qv = env.get('query', ('unk',))
-        ctx.add('F2.query-split', 'splitn(4, ?)', loc(root), qv == q or absx.leaves(qv, lambda x: x == q) != [] or strip_site(qv) == q, 'the query is not split with splitn(4, \'?\') of url.query().unwrap_or("")')
-        # base
-        lead = next((t for a, t in pcs if a[0] == 'bin' and a[1] == 'Eq' and a[3] == ('lit', '/')), None)
-        path = ('call', 'url::Url::path', (URL,), None)
-        def base_src(x):
-            if lead:
-                return x[0] == 'index' and x[1] == path and x[2][0] == 'struct' and x[2][1].endswith('RangeFrom') and dict(x[2][2]).get('start') == ('lit', 1)
-            return x == path
-        seen['base'].add('slash' if lead else 'noslash')
-        ctx.add('F1.base', 'leading slash=%s' % lead, loc(root), decoded(base_src)(env.get('base', ('unk',))), 'the base is not the percent-decoded path %s: %s' % ('without its leading /' if lead else '', absx.fmt(env.get('base', ('unk',)))[:100]))
-        # attrs
-        st = field_state(0)
-        a = env.get('attrs', ('unk',))
-        seen['attrs'].add(st)
-        if st in ('absent', 'empty'):
-            ok = a == ('vec', (('lit', '*'),))
-        else:
-            ok = a[0] == 'call' and a[1].endswith('::split') and a[2] == (('variant', fld(0), 'Some', 0), ('lit', ','))
-        ctx.add('F3.attributes', st, loc(root), ok, 'field 0 %s gives attributes %s' % (st, absx.fmt(a)[:80]))
-        # scope
-        st = field_state(1)
-        s = env.get('scope', ('unk',))
-        if st in ('absent', 'empty'):
-            exp = 'Scope::Subtree'
-            seen['scope'].add(st)
-        else:
-            w = [a2[3][1] for a2, t in pcs if t and a2[0] == 'bin' and a2[1] == 'Eq' and a2[2] == ('variant', fld(1), 'Some', 0)]
-            word = w[-1] if w else None
-            exp = {'base': 'Scope::Base', 'one': 'Scope::OneLevel', 'sub': 'Scope::Subtree'}.get(word)      # RFC 4516
-            seen['scope'].add(word)
-        ctx.add('F4.scope', '%s' % (st if st != 'given' else word), loc(root), exp is not None and s == ('ctor', exp, ()), 'scope field %s gives %s, RFC 4516: %s' % (st, absx.fmt(s), exp))
-        # filter
-        st = field_state(2)
-        seen['filter'].add(st)
-        fsrc = (lambda x: x == ('lit', '(objectClass=*)')) if st in ('absent', 'empty') else (lambda x: x == ('variant', fld(2), 'Some', 0))
-        ctx.add('F5.filter', st, loc(root), decoded(fsrc)(env.get('filter', ('unk',))), 'field 2 %s gives filter %s' % (st, absx.fmt(env.get('filter', ('unk',)))[:100]))
-    ctx.floor('F', 'prefix paths', n_ok, 12)
-    for k, need in (('attrs', {'absent', 'empty', 'given'}), ('scope', {'absent', 'empty', 'base', 'one', 'sub', 'invalid'}), ('filter', {'absent', 'empty', 'given', 'decode-error'}), ('base', {'slash', 'noslash', 'decode-error'})):
-        ctx.add('F.coverage', k, loc(root), seen[k] >= need, '%s cases seen %s, expected %s' % (k, sorted(map(str, seen[k])), sorted(need)))
-    # map_err closures give DecodingUTF8
-    mes = [n for n, c in walk(root) if n['k'] == 'MethodCall' and n['name'] == 'map_err' and n['args'] and n['args'][0]['k'] == 'Closure']
-    ok = len(mes) >= 3 and all(any(x['k'] == 'Path' and (x.get('ctor_of') or x.get('def') or '').endswith('LdapError::DecodingUTF8') for x, _ in walk(m['args'][0]['body'])) for m in mes)
-    ctx.add('F1.decode-failure-is-DecodingUTF8', 'map_err', loc(root), ok, 'a percent sequence that is not UTF-8 must become LdapError::DecodingUTF8 (%d conversion sites)' % len(mes))
-
-    # ------------------------------------------------------------------ extensions
-    ext_let = root['stmts'][ext_idx]
-    def ext_eq(I, cal, args, node, st):
-        # LdapUrlExt's PartialEq compares variants only (decided below by F6.set-equality-by-variant)
-        if '#' in cal and cal.split('#')[0] in ('core::cmp::PartialEq::ne', 'core::cmp::PartialEq::eq') and all(a[0] == 'ctor' and a[1].startswith('LdapUrlExt::') for a in args):
-            same = args[0][1] == args[1][1]
-            return [absx.Out('val', ('lit', same if cal.endswith('#Eq') else not same), st)]
+    dom = strdom.StrDomain(f)
+    cur = {}
+    def inputs(I, cal, args, node, st):
+        # the two accessors of the url crate the function reads its input through
+        if cal == 'url::Url::path' and args == [('param', 'url')]:
+            return [absx.Out('val', cur['path'], st)]
+        if cal == 'url::Url::query' and args == [('param', 'url')]:
+            return [absx.Out('val', cur['query'], st)]
         return None
-    I2 = absx.Interp(f, B, unroll=1, for_once=True, summaries=[ext_eq], result_combinators=False)
-    env0 = dict(I2.param_env())
-    env0[names['query']] = q
-    eouts = I2.ev(ext_let['init'], absx.St(env0, {('cursor', q): 3}))
-    table = {}
-    seen = set()
-    val_ok = decoded(lambda x: x[0] == 'call' and x[1].endswith('::unwrap_or') and x[2][0][0] == 'nth' and x[2][0][3] == 1 and x[2][1] == ('lit', ''))
-    for o in eouts:
-        pcs = [(strip_site(a), t) for a, t in o.st.pc]
-        st3_some = next((t for a, t in pcs if a == ('is', fld(3), 'Some')), None)
-        st3_none = next((t for a, t in pcs if a == ('is', fld(3), 'None')), None)
-        has_ext = (st3_some is True or st3_none is False) and not any(a == ('bin', 'Eq', ('variant', fld(3), 'Some', 0), ('lit', '')) and t for a, t in pcs)
-        if not has_ext:
-            ok = o.kind == 'val' and o.val[0] == 'call' and 'HashSet::<' in o.val[1] and o.val[1].endswith('::new') and not [e for e in o.st.ev if e[0] == 'call' and e[1].endswith('::insert')]
-            seen.add('none')
-            ctx.add('F6.no-extensions', 'absent/empty', loc(root), ok, 'an absent or empty field 3 must give an empty extension set')
-            continue
-        ins = [strip_site(e[2][1]) for e in o.st.ev if e[0] == 'call' and e[1].endswith('HashSet::<T, S, A>::insert')]
-        crit = any(e[0] == 'assign-local' and e[2] == ('lit', True) for e in o.st.ev)
-        ids = [a[3][1] for a, t in pcs if t and a[0] == 'bin' and a[1] == 'Eq' and a[3][0] == 'lit' and isinstance(a[3][1], str) and a[3][1].startswith('1.3.6')]
-        lc = [(a[2][0], t) for a, t in pcs if a[0] == 'call' and a[1] == 'ldap3::util::ascii_lc_equal']
-        if o.kind == 'ret':
-            v = strip_site(o.val)
-            if v[0] == 'ctor' and v[1] == 'Err' and v[2][0][0] == 'ctor' and v[2][0][1] == 'LdapError::UnrecognizedCriticalExtension':
-                seen.add('unknown-critical')
-                ok = crit and not ids and all(not t for _, t in lc) and len(lc) == 2
-                ctx.add('F6.unknown-critical-is-error', '!unknown', loc(root), ok, 'UnrecognizedCriticalExtension must be returned exactly for an unrecognised extension marked with "!"')
-            continue
-        if o.kind not in ('val',):
-            continue
-        if ids:
-            key = ids[-1]
-        elif any(t for _, t in lc):
-            key = [x[1] for x, t in lc if t][-1] if False else [a0 for a0, t in lc if t][-1][1]
-        else:
-            key = 'unknown'
-        if key == 'unknown':
-            seen.add('unknown-noncritical')
-            ok = not ins and not crit
-            ctx.add('F6.unknown-noncritical-dropped', 'unknown', loc(root), ok, 'an unrecognised non-critical extension must be ignored (inserted: %s)' % [absx.fmt(x)[:40] for x in ins])
-            continue
-        if len(ins) != 1 or ins[0][0] != 'ctor':
-            ctx.fail('F6.recognised-extension-inserted', str(key), loc(root), 'a recognised extension is not inserted exactly once'); continue
-        v = ins[0]
-        table.setdefault(key, set()).add(v[1])
-        if v[2]:
-            ctx.add('F6.extension-value-decoded', '%s|crit=%s' % (key, crit), loc(root), val_ok(v[2][0]), 'the extension value is not the percent-decoded text after "=": %s' % absx.fmt(v[2][0])[:100])
-    want = {'1.3.6.1.4.1.10094.1.5.1': {'LdapUrlExt::Credentials'}, '1.3.6.1.4.1.10094.1.5.2': {'LdapUrlExt::SaslMech'}, '1.3.6.1.4.1.1466.20037': {'LdapUrlExt::StartTLS'},
-            'bindname': {'LdapUrlExt::Bindname'}, 'x-bindpw': {'LdapUrlExt::XBindpw'}}
-    ctx.add('F6.recognition-table', 'extensions', loc(root), table == want, 'extension table %s, expected %s' % (table, want))
-    for need in ('none', 'unknown-critical', 'unknown-noncritical'):
-        ctx.add('F6.coverage', need, loc(root), need in seen, 'no extension path for ' + need)
-    # structure of the per-extension prologue
-    fors = [n for n, c in walk(ext_let['init']) if n['k'] == 'For']
-    ok = len(fors) == 1 and fors[0]['iter']['k'] == 'MethodCall' and fors[0]['iter']['name'] == 'split' and hirq.const_eval(f, fors[0]['iter']['args'][0]) == ','
-    ctx.add('F6.split-on-comma', 'extensions', loc(root), ok, 'the extension list is not split on ","')
-    sp = [n for n, c in walk(ext_let['init']) if n['k'] == 'MethodCall' and n['name'] == 'splitn']
-    ok = len(sp) == 1 and hirq.const_eval(f, sp[0]['args'][0]) == 2 and hirq.const_eval(f, sp[0]['args'][1]) == '='
-    ctx.add('F6.split-id-value', 'extensions', loc(root), ok, 'an extension is not split into id and value with splitn(2, "=")')
-    bang = [n for n, c in walk(ext_let['init']) if n['k'] == 'Binary' and n['op'] == 'Eq' and hirq.const_eval(f, n['r']) == '!']
-    okb = False
-    for b in bang:
-        for n, c in walk(ext_let['init']):
-            if n['k'] == 'If' and any(x is b for x, _ in walk(n['cond'])):
-                asg = [x for x, _ in walk(n['then']) if x['k'] == 'Assign']
-                okb = len(asg) == 2 and any(hirq.const_eval(f, x['r']) is True for x in asg) and \
-                    any(x['r']['k'] == 'AddrOf' and x['r']['e']['k'] == 'Index' and dict((fl['name'], hirq.const_eval(f, fl['e'])) for fl in x['r']['e']['idx'].get('fields', [])).get('start') == 1 for x in asg)
-    ctx.add('F6.criticality-marker', '!', loc(root), okb, 'a leading "!" must be stripped from the id and set the criticality flag')
-    # case-insensitive names: ascii_lc_equal(<lower-case literal>, input)
-    L = hirq.Body(f, f.body('ldap3::util::ascii_lc_equal'))
-    ctx.analysed['bodies'].add(L.path)
-    lowers = [n for n, c in walk(L.root) if n['k'] == 'Path' and (n.get('inst') or n.get('def') or '').endswith('to_ascii_lowercase')]
-    zips = [n for n, c in walk(L.root) if n['k'] == 'MethodCall' and n['name'] == 'zip']
-    okz = len(zips) == 1 and len(lowers) == 1 and L.roots(L.origin(zips[0]['recv'])) == {('param', 's')} and any(x is lowers[0] for x, _ in walk(zips[0]['args'][0])) \
-        and L.roots(L.origin(zips[0]['args'][0]['recv'])) == {('param', 't')} if zips and zips[0]['args'][0]['k'] == 'MethodCall' else False
-    lens = [n for n, c in walk(L.root) if n['k'] == 'Binary' and n['op'] == 'Ne' and all(x['k'] == 'MethodCall' and x['name'] == 'len' for x in (n['l'], n['r']))]
-    ctx.add('F6.case-insensitive-compare', 'ascii_lc_equal', loc(L.root), okz and len(lens) == 1, 'ascii_lc_equal must compare s with the ASCII-lower-cased t, length first')
-    callsites = [n for n, c in walk(ext_let['init']) if n['k'] == 'Call' and callee_of(n) == 'ldap3::util::ascii_lc_equal']
-    okc = len(callsites) == 2 and sorted(hirq.const_eval(f, n['args'][0]) for n in callsites) == ['bindname', 'x-bindpw'] and all(n['args'][1]['k'] == 'Path' and n['args'][1].get('res') == 'local' for n in callsites)
-    ctx.add('F6.case-insensitive-names', 'bindname/x-bindpw', loc(root), okc, 'bindname / x-bindpw must be compared as (lower-case literal, extension id)')
-    # equality of extensions is by variant only (so a value-bearing probe finds its entry)
-    eqp = '<ldap3::util::LdapUrlExt<\'a> as core::cmp::PartialEq>::eq'
+    J = Judge()
+    def evaluate(c):
+        cur['path'], cur['query'] = c['path'][1], query_of(c)
+        I = absx.Interp(f, B, summaries=[inputs, dom.summary], unroll=1, combinators=True, result_combinators=True, domain=dom, local_try=True)
+        try:
+            outs = I.run()
+        except absx.TooManyPaths:
+            J.note('F.evaluated', label(c), False, 'too many paths on %s' % label(c))
+            return
+        J.judge(c, outs)
+    cls = classes()
+    for c in cls:
+        evaluate(c)
+    n_cls = len(cls)
+    # every literal an atom was compared with (and answered "different") must be a class of the partition: evaluate the missing ones
+    done, extra = set(), 0
+    for _round in range(3):
+        todo = []
+        for name, text, mode in sorted(dom.compared):
+            lits = {text} | ({text.upper(), text.lower()} if mode == 'ci' else set())
+            for L in sorted(lits):
+                if (name, L) in done or L in COVERED.get(name, ()) or (mode == 'ci' and L.lower() in COVERED.get(name, ()) and name.startswith('extid')):
+                    continue
+                done.add((name, L))
+                todo.append((name, L))
+        if not todo:
+            break
+        for name, L in todo:
+            hosts = [c for c in cls if mentions(c, name)][:40]
+            for c in hosts:
+                evaluate(substitute(c, name, L)); extra += 1
+    J.finish()
+    loose = sorted(n for (site, n), binding in dom.bounds.items() if not binding)
+    ctx.add('F.bounds-exercised', 'splitn / take limits', loc(root), not loose,
+            'a limit of %s pieces / elements is never reached by a class of the partition: what the function does with a longer input is not decided' % loose)
+    ctx.add('F.partition-closed', 'literals compared with atoms', loc(root), len(done) <= 24,
+            'the function compares its input with %d literals outside the partition (%s); each was evaluated as a class of its own (%d classes)' % (len(done), sorted(done)[:6], extra))
+    for (rule, inst), (nok, nbad, detail) in sorted(J.groups.items()):
+        ctx.add(rule, inst, loc(root), nbad == 0, detail if nbad else '%d paths' % nok)
+    ctx.floor('F', 'classes of the input partition evaluated', n_cls, 1042)
+    ctx.floor('F', 'paths judged (at least one per class)', J.npaths, 1042)
+    for r in F6_ALL:
+        ctx.floor(r, 'classes of the partition that exercise the clause', sum(1 for c in cls if r in J.ext_rules(c)), 1)
+
+    # ---- a workspace comparison helper the function calls (found by role: called with a name literal and the extension id)
+    for cal, uses in sorted(dom.predicates.items()):
+        H = hirq.Body(f, f.body(cal))
+        ctx.analysed['bodies'].add(cal)
+        for pos, name in sorted(uses):
+            words = {name, name.upper(), name.capitalize(), '', name[:-1], name[1:], name + 'x', name + name, 'x' + name, name + '\0'}
+            for i in range(len(name)):
+                for b in range(128):
+                    words.add(name[:i] + chr(b) + name[i + 1:])
+            wrong = []
+            for w in sorted(words):
+                IH = absx.Interp(f, H, summaries=[dom.summary], combinators=True, domain=dom)
+                args = [('lit', w), ('lit', name)] if pos == 0 else [('lit', name), ('lit', w)]
+                binds = [b for b, d in sorted(H.defs.items(), key=lambda kv: kv[1].get('idx', 0)) if d['kind'] == 'param']
+                vals = {o.val for o in IH.run(env=dict(zip(binds, args))) if o.kind in ('val', 'ret')}
+                if vals != {('lit', w.lower() == name.lower())}:
+                    wrong.append((w, sorted(map(str, vals))))
+            ctx.add('F6.case-insensitive-compare', '%s(%s)' % (cal.rsplit('::', 1)[-1], ', '.join(['<id>', repr(name)] if pos == 0 else [repr(name), '<id>'])), loc(H.root), not wrong,
+                    'the helper deviates from "equal to %r up to ASCII case" on %d of %d words, e.g. %s' % (name, len(wrong), len(words), wrong[:3]))
+
+    # ---- equality of extensions is by variant only (so a value-bearing probe finds its entry, and the set keeps one entry per kind)
+    eqp = [h for h in f.hir if h.startswith('<ldap3::util::LdapUrlExt<') and h.endswith(' as core::cmp::PartialEq>::eq')]
+    if len(eqp) != 1:
+        ctx.fail('anchor-missing', 'PartialEq for LdapUrlExt', '', 'the hand-written equality of LdapUrlExt was not found'); return
+    eqp = eqp[0]
     E = hirq.Body(f, f.body(eqp))
     ctx.analysed['bodies'].add(eqp)
     variants = [v['name'] for v in f.adt('ldap3::util::LdapUrlExt')['variants']]
@@ -245,4 +530,26 @@ def run(ctx):
             vals = {o.val for o in IE.run(env={binds['self']: ta, binds['other']: tb}) if o.kind in ('val', 'ret')}
             if vals != {('lit', a == b)}:
                 wrong.append((a, b, sorted(map(str, vals))))
+    # ---- and the hash agrees with it: what is fed to the hasher does not depend on the payload (equal values hash alike)
+    hp = [h for h in f.hir if h.startswith('<ldap3::util::LdapUrlExt<') and h.endswith(' as core::hash::Hash>::hash')]
+    if len(hp) != 1:
+        ctx.fail('anchor-missing', 'Hash for LdapUrlExt', '', 'the hand-written Hash of LdapUrlExt was not found'); return
+    HB = hirq.Body(f, f.body(hp[0]))
+    ctx.analysed['bodies'].add(hp[0])
+    IH = absx.Interp(f, HB, result_combinators=False)
+    hb = {d['name']: b for b, d in HB.defs.items() if d['kind'] == 'param'}
+    badh = []
+    for a in variants:
+        ta = ('ctor', 'LdapUrlExt::' + a, () if a == 'StartTLS' else (('param', 'x'),))
+        env = {hb['self']: ta}
+        env.update({b: ('param', n) for n, b in hb.items() if n != 'self'})
+        fed = set()
+        for o in IH.run(env=env):
+            calls = [e for e in o.st.ev if e[0] == 'call']
+            if o.kind not in ('val', 'ret') or any(absx.leaves(('x',) + tuple(e[2]), lambda z: z == ('param', 'x') or z[0] in ('variant', 'vfield', 'unk')) for e in calls):
+                badh.append(a)
+            fed.add(tuple(absx.fmt(e[2][0]) for e in calls if e[1].endswith('::hash')))
+        if len(fed) != 1:
+            badh.append(a)
+    ctx.add('F6.hash-agrees-with-equality', 'LdapUrlExt::hash', loc(HB.root), not badh, 'what hash() feeds to the hasher depends on more than the variant for %s: values that are equal would hash differently' % sorted(set(badh)))
     ctx.add('F6.set-equality-by-variant', 'LdapUrlExt::eq', loc(E.root), not wrong and len(variants) == 6, 'eq() over all variant pairs deviates from "same variant": %s' % wrong[:4])
